@@ -640,7 +640,7 @@ func execDialer(f []string) vlib.Res {
 		cfg.RootServers = []string{"192.0.2.1:53"}
 		cfg.DNSSEC = "off"
 		for i := 0; i < n; i++ {
-			cfg.OutboundIPs = append(cfg.OutboundIPs, fmt.Sprintf("127.0.0.%d", i+1))
+			cfg.OutboundIPs = append(cfg.OutboundIPs, "127.0.0.1") // must be local addresses; told apart by identity
 		}
 		dialH = resolver.New(cfg)
 		dialR = resolver.VerifResolver(dialH)
